@@ -52,3 +52,19 @@ def tmap(fn, items, threads=None):
     items = list(items)
     with ThreadPoolExecutor(max_workers=min(threads or NPROC, max(1, len(items)))) as ex:
         return list(ex.map(fn, items))
+
+
+def apply_controls(run, tier):
+    """Thorough tier: every negative control must be killed by a named obligation, else exit 3"""
+    if tier != "thorough" or os.environ.get("VERIF_NO_CONTROLS"):
+        return
+    from checks import controls
+
+    r = controls.run_controls(run.prop)
+    if r is None:
+        return
+    run.negative_controls = {k: r[k] for k in ("applied", "killed", "table")}
+    for s in r["survivors"]:
+        run.errors.append("negative control survived (engine unsound or contract too weak): %s (exit %s)" % (s["name"], s.get("exit")))
+    for s in r["stale"]:
+        run.errors.append("negative control no longer applies to the current source (update controls/%s.py): %s" % (run.prop, s["name"]))
